@@ -1141,6 +1141,7 @@ def part_dim_types(ctx):
 
 
 PROPS = {"C01": "Props/C01_algebra.v", "C05": "Props/C05_algebra.v", "C10": "Props/C10_shapes.v", "C14": "Props/C14_algebra.v"}
+EXTRA_PROPS = {"C01": ["Props/C01_maxreal.v"]}
 MODEL_VO = ["NumPy/AlgebraRun.vo"]
 
 STREAMS = [
@@ -1165,8 +1166,12 @@ def run_part(ctx, parts=None, as_pid=None):
     pid = as_pid or ctx.pid
     ctx.extra["algebra_part_of"] = pid
     props = PROPS.get(pid)
+    full_part = parts is None
     if props and os.path.exists(os.path.join(common.COQ, props)):
         ctx.build_props(props_rel=props, extra_targets=MODEL_VO)
+        for extra in (EXTRA_PROPS.get(pid, []) if full_part else []):      # e.g. the analytic max/min statements over R
+            if os.path.exists(os.path.join(common.COQ, extra)):
+                ctx.build_props(props_rel=extra)
     else:
         ok, log = common.coq_make(["Base/Cmp.vo"] + MODEL_VO)
         if not ok:
